@@ -12,6 +12,7 @@
  *                      "cycle:<hex>[:<fail_at>[:once]]"  one continuous byte stream that cycles through <hex> and continues across
  *                                      requests (however many requests an implementation makes, the entropy is a prefix
  *                                      of the stream); request number <fail_at> fails (and all later ones unless ":once")
+ *   HDW_READ_CHUNK     n: every read(2) of the process returns at most n bytes (short reads)
  *   HDW_ENTROPY_LOG    file; one line per scripted request: "<k> <len> <entry point> <ok|fail> <hex of the bytes returned>"
  */
 #define _GNU_SOURCE
@@ -102,8 +103,12 @@ int open64(const char *path, int flags, ...) { va_list ap; va_start(ap, flags); 
     int (*real)(const char *, int, ...) = dlsym(RTLD_NEXT, "open64"); int fd = real(path, flags, m); if (is_random_path(path)) note_fd(fd); return fd; }
 int openat(int dirfd, const char *path, int flags, ...) { va_list ap; va_start(ap, flags); mode_t m = va_arg(ap, mode_t); va_end(ap);
     int (*real)(int, const char *, int, ...) = dlsym(RTLD_NEXT, "openat"); int fd = real(dirfd, path, flags, m); if (is_random_path(path)) note_fd(fd); return fd; }
+/* HDW_READ_CHUNK=<n>: every read(2) returns at most n bytes (the environment's legal "short read" answer, owned by the harness) */
+static long read_chunk = -2;
 ssize_t read(int fd, void *buf, size_t len) {
     ssize_t (*real)(int, void *, size_t) = dlsym(RTLD_NEXT, "read");
+    if (read_chunk == -2) { const char *c = getenv("HDW_READ_CHUNK"); read_chunk = c ? strtol(c, NULL, 10) : -1; }
+    if (read_chunk > 0 && len > (size_t)read_chunk) len = (size_t)read_chunk;
     if (n_urandom > 0 && is_random_fd(fd)) { int r = scripted(buf, len, "read-urandom"); if (r == 1) return real(fd, buf, len); return r == 0 ? (ssize_t)len : -1; }
     return real(fd, buf, len);
 }
